@@ -289,7 +289,13 @@ def run(analysis: Analysis, tier: str) -> RuleResult:
         gs_problems.append(f"attributes {sorted(renamed - full)} are renamed on some paths only")
     res.add("C11-R1", "sensor:Sensor.__getstate__ / each renamed value is stored under the property name of the private attribute it was popped from", not gs_problems, common.where(analysis, getstate, getstate.node), "state[name] = state.pop('_' + name)" if not gs_problems else "; ".join(sorted(set(gs_problems))[:3]))
     res.add("C11-R1", "sensor:Sensor.__getstate__ / saving does not change the live object (only the copied dict is edited)", not live_mut, common.where(analysis, getstate, getstate.node), "mutations only on the copy of the instance dict" if not live_mut else f"__getstate__ mutates an object the copy shares with the live sensor ({sorted(set(live_mut))[0]}): the copy is shallow, so every pickle save empties the node's sleep state / hold queue", None)
-    setters = {"_" + name for name, pr in sensor.props.items() if "set" in pr}
+    # settable properties as the class object has them (reflection: @x.setter methods and property objects a
+    # factory put into the class body alike)
+    refl_cls = analysis.refl["classes"].get("mysensors.sensor:Sensor")
+    if refl_cls is None:
+        raise AnalysisError("anchor vanished: class mysensors.sensor:Sensor not reflected")
+    prop_setters = set(refl_cls["prop_setters"])
+    setters = {"_" + name for name in prop_setters}
     res.add("C11-R1", "sensor:Sensor.__getstate__ / renames exactly the private attributes behind a property with setter", renamed == setters, common.where(analysis, getstate, getstate.node), f"renamed {sorted(renamed)}; settable properties {sorted(setters)}")
     private = {a for a in s_init if a.startswith("_")}
     res.add("C11-R1", "sensor:Sensor / every private attribute is behind a settable property", private == setters, w, f"private {sorted(private)}")
@@ -304,7 +310,7 @@ def run(analysis: Analysis, tier: str) -> RuleResult:
     wd = common.where(analysis, dec, dec.node)
     decoder_rules(analysis, res, enc_s, enc_c, wd)
     plain = {a for a in s_init if not a.startswith("_")}
-    settable = plain | {name for name, pr in sensor.props.items() if "set" in pr}
+    settable = plain | prop_setters
     missing = enc_s - settable
     res.add("C11-R3", "sensor:Sensor / every encoded key is a settable attribute or property", not missing, w, f"not settable: {sorted(missing)}" if missing else "decoder restores with setattr(sensor, key, val)")
     # ---- R4
